@@ -131,7 +131,16 @@ def run(prog, ctx):
             elif facts:
                 res.undecided += 1      # guarded by something this rule does not recognise as the novelty flag
             else:
-                res.violate("C05.N", "C05.N|%s|count" % f.id, "num_coupons is incremented in %s unconditionally (not guarded by the novelty of the coupon)" % f.id, f.id, span)
+                # unconditional inside a helper: the guard may sit at the helper's call sites (one level up)
+                sites = [(g, bb) for g in reach if g.id != f.id for bb, st in g.calls() if st.get("callee") == f.id]
+                fs = [(g, bb, Sym(prog, g).cmp_facts_at(bb)) for g, bb in sites]
+                if fs and all(any(x[0] == "true" for x in fx) for _g, _bb, fx in fs):
+                    res.discharged += 1
+                elif fs and all(fx for _g, _bb, fx in fs):
+                    res.undecided += 1
+                else:
+                    res.violate("C05.N", "C05.N|%s|count" % f.id, "num_coupons is incremented in %s unconditionally (not guarded by the novelty of the coupon%s)" % (
+                        f.id, ", nor at its call site in %s" % [g.id for g, _bb, fx in fs if not fx][:2] if fs else ""), f.id, span)
             hip = [bb for bb, st in f.calls() if (st.get("callee") or "").endswith("::update_hip")]
             if hip and any(set(repr(x) for x in s.cmp_facts_at(h)) == set(repr(x) for x in facts) for h in hip):
                 res.discharged += 1
